@@ -145,7 +145,7 @@ ArrayStep(objs, opts, call) ==
              avail == Len(src) \div w
              take == IF IsNone(i1) THEN avail ELSE MinI(MaxI(i1, 0), avail)
              new == ARec(a.dn, a.dl, a.v \o Sub(src, 0, take * w)) IN
-         IF Len(Trailing(a)) # 0 THEN Raises({"ValueError"})
+         IF Len(Trailing(a)) # 0 THEN Raises(AnyDoc)
          ELSE IF ~IsNone(i1) /\ i1 < 0 THEN Unconstrained
          ELSE IF ~IsNone(i1) /\ avail < i1 THEN [Raises({"EOFError"}) EXCEPT !.alt = One(t, {new})]
          ELSE OkNone(One(t, new))
@@ -174,7 +174,7 @@ ArrayStep(objs, opts, call) ==
          IF i3 = 0 THEN Raises(AnyDoc)
          ELSE IF ~r.ok THEN Raises({"ValueError", "TypeError"})
          ELSE IF IsNone(i3) \/ i3 = 1 THEN OkNone(Upd(Rebuild(a, SeqSetSlice1(ItemSeq(a), i1, i2, blocks))))
-         ELSE IF SliceLen(n, i1, i2, i3) # Len(call.va) THEN Raises({"ValueError"})
+         ELSE IF SliceLen(n, i1, i2, i3) # Len(call.va) THEN Raises(AnyDoc)
          ELSE OkNone(Upd(Rebuild(a, SeqSetSliceExt(ItemSeq(a), i1, i2, i3, blocks))))
     [] op = "adelitem" ->
          IF ~ListIdxOK(n, i1) THEN Raises({"IndexError"})
@@ -183,12 +183,12 @@ ArrayStep(objs, opts, call) ==
          IF i3 = 0 THEN Raises(AnyDoc) ELSE OkNone(Upd(Rebuild(a, SeqDelSlice(ItemSeq(a), i1, i2, i3))))
     [] op = "aappend" ->
          LET r == EncodeDtypeM(a.dn, a.dl, call.va[1], mx) IN
-         IF Len(Trailing(a)) # 0 THEN Raises({"ValueError"})
+         IF Len(Trailing(a)) # 0 THEN Raises(AnyDoc)
          ELSE IF ~r.ok THEN Raises({"ValueError", "TypeError"})
          ELSE OkNone(Upd(a.v \o r.bits))
     [] op = "aextend" ->
          LET r == EncItems(a.dn, a.dl, call.va, mx) IN
-         IF Len(Trailing(a)) # 0 THEN Raises({"ValueError"})
+         IF Len(Trailing(a)) # 0 THEN Raises(AnyDoc)
          ELSE IF ~r.ok THEN [Raises({"ValueError", "TypeError"}) EXCEPT !.free = {"upd"}]
          ELSE OkNone(Upd(a.v \o r.bits))
     [] op = "ainsert" ->
@@ -201,7 +201,7 @@ ArrayStep(objs, opts, call) ==
          IF n = 0 \/ ~ListIdxOK(n, i) THEN Raises({"IndexError"})
          ELSE Ok(<<ItemVal(a, ListNorm(n, i))>>, <<"">>, Upd(DeleteRange(a.v, ListNorm(n, i) * w, (ListNorm(n, i) + 1) * w)))
     [] op = "areverse" ->
-         IF Len(Trailing(a)) # 0 THEN Raises({"ValueError"})
+         IF Len(Trailing(a)) # 0 THEN Raises(AnyDoc)
          ELSE OkNone(Upd(FoldLeft(LAMBDA acc, q : acc \o q, <<>>, [i \in 1..n |-> ItemBits(a, n - i)])))
     [] op = "acount" ->
          \* items are compared by value; NaN counts NaNs
@@ -221,7 +221,7 @@ ArrayStep(objs, opts, call) ==
          IF ~DtypeOKForArray(call.sa[1], i1) THEN Raises({"ValueError"})
          ELSE OkNone(One(t, ARec(call.sa[1], i1, a.v)))
     [] op = "abyteswap" ->
-         IF w % 8 # 0 THEN Raises({"ValueError"})
+         IF w % 8 # 0 THEN Raises(AnyDoc)
          ELSE OkNone(Upd(FoldLeft(LAMBDA acc, q : acc \o ByteRev(q), <<>>, ItemSeq(a)) \o Trailing(a)))
     [] op \in {"aop", "aiop"} ->
          \* integer dtype, small integer scalar: va = <<scalar>>, sa = <<operator>>
@@ -267,7 +267,7 @@ ArrayStep(objs, opts, call) ==
          LET opn == call.sa[1]
              x == XV(objs, call.xs[1])
              bits == FoldLeft(LAMBDA acc, q : acc \o BinB(opn, q, x), <<>>, ItemSeq(a)) IN
-         IF Len(x) # w THEN Raises({"ValueError"})
+         IF Len(x) # w THEN Raises(AnyDoc)
          ELSE IF call.sa[2] = "inplace" THEN [Ok(<<VArr(a.dn, a.dl, bits \o Trailing(a))>>, <<t>>, Upd(bits \o Trailing(a))) EXCEPT !.arr = <<Canon(a.dn), a.dl>>]
          ELSE [OkArr(a.dn, a.dl, bits) EXCEPT !.free = {"trailing"}]
     [] op = "aopa" ->
@@ -278,12 +278,12 @@ ArrayStep(objs, opts, call) ==
              res == [i \in 1..n |-> ApplyInt(opn, SmallOf(ItemVal(a, i - 1)), SmallOf(ItemVal(b, i - 1)))]
              enc == [i \in 1..n |-> EncodeDtypeM(pr.dn, pr.dl, IntValOf(res[i].v), mx)] IN
          IF ~IsIntDtype(a.dn) \/ ~IsIntDtype(b.dn) \/ a.dl > 16 \/ b.dl > 16 THEN Unconstrained
-         ELSE IF NItems(b) # n THEN Raises({"ValueError"})
+         ELSE IF NItems(b) # n THEN Raises(AnyDoc)
          ELSE IF \E i \in 1..n : ~res[i].ok \/ ~enc[i].ok THEN Raises({"ValueError", "ZeroDivisionError"})
          ELSE OkArr(pr.dn, pr.dl, FoldLeft(LAMBDA acc, q : acc \o q.bits, <<>>, enc))
     [] op = "aextendarr" ->
          LET b == objs[call.xs[1].id] IN
-         IF Len(Trailing(a)) # 0 THEN Raises({"ValueError"})
+         IF Len(Trailing(a)) # 0 THEN Raises(AnyDoc)
          ELSE IF Canon(a.dn) # Canon(b.dn) \/ ItemW(a) # ItemW(b) THEN Raises({"TypeError", "ValueError"})
          ELSE OkNone(Upd(a.v \o b.v))
     [] op = "afromarray" ->
